@@ -11,7 +11,7 @@ EXTENDS Limb, FiniteSets
 
 WDC == <<-1>>
 
-WideKinds == {"Add", "AddCarryIn", "Sub", "Neg", "Abs", "Sign", "SignExtend", "ZeroExtend", "Mul", "SignedMul", "Div", "Mod",
+WideKinds == {"Add", "AddCarryIn", "Sub", "SubBorrowIn", "Neg", "Abs", "Sign", "SignExtend", "ZeroExtend", "Mul", "SignedMul", "Div", "Mod",
               "SignedAdd", "SignedSub", "SignedDiv", "ShiftLeftConstant", "ShiftRightConstant", "ShiftLeft", "ShiftRight",
               "RotateLeftConstant", "RotateRightConstant", "CountLeadingZeros",
               "And2", "Or2", "Xor2", "Nand2", "Nor2", "Not", "Buf", "And", "Or", "Xor", "Nor", "AndBits", "OrBits",
@@ -48,6 +48,7 @@ WideRefW(kind, c, iv, iw, ow, WW) ==
               s == Add(Add(U(1), U(2), WW), ci, WW)
           IN  IF kind = "Add" /\ c.co = 1 THEN <<O(s), FromInt(BitOf(s, ow[1]), ow[2])>> ELSE <<O(s)>>
     [] kind \in {"Sub", "FixedPointSub"} -> <<O(Sub(U(1), U(2), WW))>>
+    [] kind = "SubBorrowIn" -> <<O(Sub(Sub(U(1), U(2), WW), U(3), WW))>>
     [] kind = "Neg" -> <<O(Neg(U(1), WW))>>
     [] kind = "Abs" -> IF c.inv = 1 THEN <<O(AbsV(S(1), WW)), FromInt(MsbOf(iv[1], iw[1]), ow[2])>> ELSE <<O(AbsV(S(1), WW))>>
     [] kind \in {"Sign", "FixedPointSign"} -> <<FromInt(MsbOf(iv[1], iw[1]), ow[1])>>
